@@ -153,7 +153,19 @@ func init() {
 	Register(&Check{
 		ID: "C02",
 		Gen: func(r *sim.Rng, tier string) json.RawMessage {
-			pl := GenRelayPlan(r, relayProfileC02(tier))
+			prof := relayProfileC02(tier)
+			crowd := r.Bool(0.2)
+			if crowd {
+				// several RTSP players on few streams, large key frames (several RTP packets each), park points between the
+				// writes to the players: joins that take effect in the middle of a fragmented key frame
+				prof.Protos = []string{"rtsp", "rtsp", "rtsp", "rtmp"}
+				prof.BigUnits = 0.4
+				prof.ShapeAudioOnly = 0.05
+			}
+			pl := GenRelayPlan(r, prof)
+			if crowd {
+				pl.Sched.YieldWrite = 0.5
+			}
 			pl.Conf.TsEnable = true
 			pl.Conf.TsGop = r.Intn(3)
 			pl.Conf.RtspEnable = true
